@@ -21,7 +21,8 @@ from . import core, src, sym, vrt, vtypes, xform
 from .sym import Ctx, PathEnd, Unsupported, SSeq, SInt, Sym, SObj, cur, fml, lift
 
 REGISTRY: Dict[str, "Contract"] = {}
-CLASS_TAGS: Dict[str, tuple] = {}   # SObj class tag -> tuple of real classes it is an instance of
+CLASS_TAGS: Dict[str, tuple] = {}
+ISINSTANCE_HOOKS: Dict[str, Callable] = {}   # SObj class tag -> (obj, types) -> bool / SBool   # SObj class tag -> tuple of real classes it is an instance of
 
 
 def sobj_isinstance(x: SObj, ts):
